@@ -13,7 +13,7 @@ EXPLANATION = (
 NOT_DECIDED = ("distance in (0, step], helix accuracy, momentum conservation inside the steppers, "
                "chord / intersection tolerances (numeric)")
 
-TECHNIQUE = ('CFG pairing (ODE position write <-> geometry move), reaching definitions for the final direction, loop-progress (every body path redefines a loop-condition variable), guard dominance for the boundary flag')
+TECHNIQUE = ('CFG pairing (ODE position write <-> geometry move), reaching definitions for the final direction, loop-progress (every body path redefines the loop variables), provenance pairing of the (state, step) components returned by the field driver with a path-sensitive staleness walk')
 
 UNITS = [
     "src/celeritas/global/alongstep/AlongStepUniformMscAction.cc",
